@@ -92,7 +92,9 @@ class OperandFormatter:
                 return '"{}"'.format(chr(value & 127)) + suffix
             base = DEFAULT_BASE
         if base == 'm':
-            if num_bytes == 1:
+            if value == 0:
+                base = DEFAULT_BASE
+            elif num_bytes == 1:
                 value = 256 - value
             else:
                 value = 65536 - value
